@@ -4,6 +4,7 @@ mod c04;
 mod c13;
 mod c14;
 mod c16;
+mod c23;
 mod c25;
 mod c26;
 mod c28;
@@ -25,6 +26,7 @@ fn main() {
         "c14-datahash" => c14::datahash(rest),
         "c14-e2e" => c14::e2e(rest),
         "c16-record" => c16::record(rest),
+        "c23-record" => c23::record(rest),
         "c25-record" => c25::record(rest),
         "c26-replay" => c26::replay(rest),
         "c26-selfcheck" => c26::selfcheck(rest),
